@@ -106,6 +106,8 @@ pub trait DrainDyn<T> {
     fn len(&self) -> usize;
     fn size_hint(&self) -> (usize, Option<usize>);
     fn debug_string(&self) -> String;
+    /// `{:?}` into a sink that accepts `budget` bytes and then returns an error (or panics); Some(result is Err) / None if it panicked
+    fn debug_failing(&self, budget: usize, panic: bool) -> Option<bool>;
     fn forget(self: Box<Self>);
     fn nth(&mut self, k: usize) -> Option<T>;
     fn nth_back(&mut self, k: usize) -> Option<T>;
@@ -198,6 +200,9 @@ impl<const N: usize, T: Debug> DrainDyn<T> for Drain<'_, N, T> {
     fn size_hint(&self) -> (usize, Option<usize>) {
         Iterator::size_hint(self)
     }
+    fn debug_failing(&self, budget: usize, panic: bool) -> Option<bool> {
+        debug_into_failing_sink(self, budget, panic)
+    }
     fn debug_string(&self) -> String {
         format!("{:?}", self)
     }
@@ -212,6 +217,8 @@ pub trait IntoIterDyn<T> {
     fn len(&self) -> usize;
     fn size_hint(&self) -> (usize, Option<usize>);
     fn debug_string(&self) -> String;
+    /// `{:?}` into a sink that accepts `budget` bytes and then returns an error (or panics); Some(result is Err) / None if it panicked
+    fn debug_failing(&self, budget: usize, panic: bool) -> Option<bool>;
     fn clone_box(&self) -> Box<dyn IntoIterDyn<T>>;
     fn collect_vec(self: Box<Self>) -> Vec<T>;
     fn nth(&mut self, k: usize) -> Option<T>;
@@ -241,6 +248,9 @@ impl<const N: usize, T: Debug + Clone + 'static> IntoIterDyn<T> for IntoIter<N, 
     }
     fn size_hint(&self) -> (usize, Option<usize>) {
         Iterator::size_hint(self)
+    }
+    fn debug_failing(&self, budget: usize, panic: bool) -> Option<bool> {
+        debug_into_failing_sink(self, budget, panic)
     }
     fn debug_string(&self) -> String {
         format!("{:?}", self)
@@ -800,4 +810,39 @@ where
         Box::new(b)
     }
     dispatch_cap!(n, N => mk::<N, T>(it), panic!("capacity {n} not in table"))
+}
+
+struct SinkGaveUp;
+
+struct FailingSink {
+    left: usize,
+    panic: bool,
+}
+
+impl std::fmt::Write for FailingSink {
+    fn write_str(&mut self, s: &str) -> std::fmt::Result {
+        if s.len() > self.left {
+            self.left = 0;
+            if self.panic {
+                std::panic::panic_any(SinkGaveUp);
+            }
+            return Err(std::fmt::Error);
+        }
+        self.left -= s.len();
+        Ok(())
+    }
+}
+
+pub fn debug_into_failing_sink<D: Debug + ?Sized>(d: &D, budget: usize, panic: bool) -> Option<bool> {
+    use std::fmt::Write;
+    let mut sink = FailingSink { left: budget, panic };
+    match std::panic::catch_unwind(std::panic::AssertUnwindSafe(|| write!(sink, "{:?}", d))) {
+        Ok(r) => Some(r.is_err()),
+        Err(p) => {
+            if p.downcast_ref::<SinkGaveUp>().is_none() {
+                std::panic::resume_unwind(p);
+            }
+            None
+        }
+    }
 }
